@@ -112,6 +112,20 @@ impl Builder {
     }
 }
 
+#[cfg(feature = "verif")]
+impl Builder {
+    /// Verification hook: returns a new reader from a caller-supplied buffered reader.
+    ///
+    /// This runs the same detection and construction code as [`Builder::build`], but lets a
+    /// harness control how the underlying byte stream is chunked or made to fail.
+    pub fn build_from_bufread<R>(self, reader: R) -> io::Result<super::DynReader>
+    where
+        R: 'static + io::BufRead,
+    {
+        self.build_from_reader(reader)
+    }
+}
+
 /// A reader input format.
 #[derive(Clone, Copy, Debug, Eq, PartialEq)]
 pub enum Format {
